@@ -241,7 +241,7 @@ class Check(object):
                                 'goal': ir.show(ob.goal)[:400],
                                 'hyps': [ir.show(h)[:160] for h in ob.hyps[:8]],
                                 'verdict': r['verdict'], 'backend': r['backend'], 'seconds': r['seconds']})
-        n_known = len(self.known)
+        n_known = len([k for k in self.known if k[0] in {o.name for o in self.obs}])
         if proved_canaries and not self.violations:
             # a must-fail obligation was proved although every real obligation holds: the engine proves too much
             for nm in proved_canaries:
@@ -281,7 +281,7 @@ class Check(object):
         os.makedirs(os.path.join(VERIF, 'evidence'), exist_ok=True)
         with open(os.path.join(VERIF, 'evidence', self.prop + '.json'), 'w') as f:
             json.dump(evidence, f, indent=1, default=str)
-        for name, text in self.known:
+        for name, text in [(k[0], k[1]) for k in self.known]:
             print('KNOWN-FINDING: property=%s %s' % (self.prop, text))
         for name, path, suffix in self.violations[:12]:
             print('VIOLATION property=%s replay=%s%s' % (self.prop, path, suffix))
